@@ -396,6 +396,9 @@ bool exec_line(char *line, int lineno, int thr) {
 		HEAD(); fputs(",\"m\":", vout);
 		if (m) { out_hex(m, (size_t) m[0] + 1); free(m); } else fputs("null", vout);
 		TAIL();
+	} else if ((strcmp(op, "ll") == 0 || strcmp(op, "hl") == 0 || strcmp(op, "flush") == 0) && !bidib_running) {
+		/* the API is only defined while the library runs: a script line that follows a failed start is skipped */
+		HEAD(); fputs(",\"skipped\":1", vout); out_wire(); TAIL();
 	} else if (strcmp(op, "ll") == 0) {
 		/* ll <function> <args...> */
 		int rc = ll_call(tok[1], n - 2, tok + 2);
